@@ -620,12 +620,19 @@ func ruleValidate(c *Ctx) {
 			good := inLoopCall
 			why := "never calls " + vm.Name() + " on the decoded elements"
 			if inLoopCall {
-				// verdict returned on failure
-				ret := false
-				for _, ref := range *vcall.Referrers() {
-					if b, ok := ref.(*ssa.BinOp); ok && b.Op == token.NEQ {
-						ret = true
+				// verdict returned on failure: straight away, or collected (appended to an error list) so that no later
+				// element can overwrite it
+				ret := c.errorReturned(vcall)
+				if !ret {
+					for _, ref := range *vcall.Referrers() {
+						if mi, ok := ref.(*ssa.MakeInterface); ok {
+							_ = mi
+						}
 					}
+					ret = dataReaches(vcall, func(in ssa.Instruction) bool {
+						call, ok := in.(*ssa.Call)
+						return ok && calleeName(&call.Call) == "builtin.append"
+					})
 				}
 				// and the loop ranges over the whole decoded slice (range loop: index compared with len)
 				good = ret && c.loopCoversSlice(vcall.Block())
@@ -637,6 +644,81 @@ func ruleValidate(c *Ctx) {
 			}
 			c.check(good, key, c.pos(fn.Pos()), fname(fn), "every decoded element is validated", fmt.Sprintf("%s decodes []%s from YAML but %s", key, tn, why))
 		}
+	}
+	// Map.validate looks at every entry of the chord table: the reference checks are not skipped for some entries
+	if v := c.fn("chord", "Map.validate"); v != nil {
+		c.site(1)
+		tr := c.plainTracer()
+		problem := ""
+		nChecks := 0
+		for _, f := range withClosures(v) {
+			allInstrs(f, func(in ssa.Instruction) {
+				lk, ok := in.(*ssa.Lookup)
+				if !ok || !lk.CommaOk {
+					return
+				}
+				fld, _, isField := loadedField(lk.X)
+				if !isField || (fld != "attributes" && fld != "chords") {
+					return
+				}
+				// only the existence checks outside the cycle walk (that walk is judged by RECUR)
+				if lp := innermostLoop(lk.Block()); lp != nil {
+					// the walk along `extends` links: a loop variable that is replaced by the parent's Extends on every round
+					isWalk := false
+					for b := range lp {
+						isHeader := true
+						for o := range lp {
+							if !(b == o || b.Dominates(o)) {
+								isHeader = false
+							}
+						}
+						if !isHeader {
+							continue
+						}
+						for _, in2 := range b.Instrs {
+							phi, ok := in2.(*ssa.Phi)
+							if !ok {
+								break
+							}
+							for i, e := range phi.Edges {
+								if lp[b.Preds[i]] {
+									if n, _, ok := loadedFieldOrField(e); ok && n == "Extends" {
+										isWalk = true
+									}
+								}
+							}
+						}
+					}
+					if isWalk {
+						return
+					}
+				}
+				nChecks++
+				for _, g := range guardsOf(lk.Block(), lval{nil, f, nil}) {
+					gl := tr.trace(g.cond)
+					switch x := gl.v.(type) {
+					case *ssa.Extract:
+						if _, isNext := x.Tuple.(*ssa.Next); isNext {
+							continue // range over a map / string: more elements
+						}
+					case *ssa.BinOp:
+						if x.Op == token.LSS {
+							continue // range over a slice: index < len
+						}
+						if s, ok := constString(x.Y); ok && s == "" {
+							if n, _, ok := loadedFieldOrField(x.X); ok && n == "Extends" {
+								continue // `extends` is optional
+							}
+						}
+					}
+					problem = "the check of a chord's " + fld + " reference is skipped under a further condition (" + c.pos(lk.Pos()) + "): some entries of the table are not validated"
+				}
+			})
+		}
+		if nChecks < 2 {
+			problem = fmt.Sprintf("%d reference checks found, want the attribute check and the extends check", nChecks)
+		}
+		c.check(problem == "", "chord.Map.validate|every-entry", c.pos(v.Pos()), fname(v), fmt.Sprintf("%d reference checks, each applied to every entry", nChecks), fname(v)+": "+problem)
 	}
 	// Map: only NewMap constructs it
 	c.checkSoleConstructor("chord", "Map", "NewMap")
@@ -1795,4 +1877,59 @@ func (c *Ctx) missReturnsError(call *ssa.Call, okIdx int, before ssa.Instruction
 		}
 	}
 	return false
+}
+
+
+// dataReaches: the value flows (through stores into locals / variadic lists, wrapping calls and phis) into an instruction satisfying pred.
+func dataReaches(v ssa.Value, pred func(ssa.Instruction) bool) bool {
+	seen := map[ssa.Value]bool{}
+	var walk func(x ssa.Value, d int) bool
+	walk = func(x ssa.Value, d int) bool {
+		if x == nil || seen[x] || d > 12 {
+			return false
+		}
+		seen[x] = true
+		refs := x.Referrers()
+		if refs == nil {
+			return false
+		}
+		for _, r := range *refs {
+			if pred(r) {
+				return true
+			}
+			switch y := r.(type) {
+			case *ssa.Store:
+				if y.Val == x {
+					// into a variadic list / local: follow the container
+					switch a := y.Addr.(type) {
+					case *ssa.IndexAddr:
+						if walk(a.X, d+1) {
+							return true
+						}
+					case *ssa.Alloc:
+						if walk(a, d+1) {
+							return true
+						}
+					}
+				}
+			case *ssa.Slice:
+				if walk(y, d+1) {
+					return true
+				}
+			case *ssa.MakeInterface:
+				if walk(y, d+1) {
+					return true
+				}
+			case *ssa.Phi:
+				// a loop-carried variable that later iterations overwrite does not preserve the value
+				continue
+			case *ssa.UnOp:
+				if walk(y, d+1) {
+					return true
+				}
+			}
+		}
+		return false
+	}
+	return walk(v, 0)
 }
